@@ -552,7 +552,12 @@ def _execute_fields_alignment(ck, repo):
           len(gfd) == 1 and [unparse(a) for a in gfd[0].args] == [f"{p[0]}.schema", p[1], f"{nodes}[0].name.value"], f,
           gfd[0] if gfd else loop, construct="resolver:lookup")
 
-    # serial twin
+    serial_twin(ck, repo)
+    _resolve_field_forward(ck, repo)
+
+
+def serial_twin(ck, repo):
+    """Result construction of the serial executor (shared with C09.R2)."""
     s = repo.func(EXECUTE, "execute_fields_serially")
     sv = FuncView(s)
     sp = s.positional_params
@@ -572,6 +577,9 @@ def _execute_fields_alignment(ck, repo):
     rets = sv.returns()
     ck.ob("execute_fields_serially: returns the mapping it filled", len(rets) == 1 and unparse(rets[0].value) == "results", s,
           rets[0] if rets else s.node, construct="serial:return")
+
+
+def _resolve_field_forward(ck, repo):
     # resolve_field (execute.py) forwards operands unchanged
     rf = repo.func(EXECUTE, "resolve_field")
     rv = FuncView(rf)
